@@ -72,7 +72,7 @@ pub fn resolve_res(
 
         if opts.debug_iterations
         {
-            println!("  res: {:?}", res.reserve_size);
+            debug_println!("  res: {:?}", res.reserve_size);
         }
         
         return Ok(asm::ResolutionState::Unresolved);
